@@ -654,10 +654,14 @@ impl<'a> Binder<'a> {
                         )?;
                     }
                 }
-                // Use the alias if available, otherwise use the expression's output name
+                // Use the alias if available, otherwise use the expression's output name.
+                // An alias that repeats the name of a group column or of an earlier
+                // aggregate (`SELECT b AS x, SUM(a) AS b ... GROUP BY b`) would make the
+                // by-name reference from the projection pick the other column.
                 let field_name = aggregate_aliases
                     .get(i)
                     .and_then(|a| a.as_ref().cloned())
+                    .filter(|a| !agg_fields.iter().any(|f: &SchemaField| &f.name == a))
                     .unwrap_or_else(|| expr.output_name());
                 let data_type = expr.data_type(&input_schema)?;
                 agg_fields.push(SchemaField::new(field_name, data_type));
